@@ -19,10 +19,11 @@ def seed():
         return DEFAULT_SEED
 
 class Case:
-    __slots__ = ('cmds', 'check', 'ncalls', 'tag', 'trivial', 'spec', 'timeout')
+    __slots__ = ('cmds', 'check', 'ncalls', 'tag', 'trivial', 'spec', 'timeout', 'dyn')
     def __init__(self, cmds, check, ncalls=1, tag=None, trivial=False, spec=None, timeout=None):
         self.cmds = cmds; self.check = check; self.ncalls = ncalls; self.tag = tag
         self.trivial = trivial; self.spec = spec; self.timeout = timeout
+        self.dyn = {}     # a check may set dyn['calls'] (measured number of judged calls) and dyn['tags']
 
 class Env:
     """what a property module may know about the variant under test"""
@@ -151,9 +152,13 @@ class Worker:
 
     def account(self, case):
         r = self.res
-        r['evaluations'] += case.ncalls; r['cases'] += 1
+        r['evaluations'] += case.dyn.get('calls', case.ncalls); r['cases'] += 1
         if case.tag is not None and not case.trivial:
             r['tags'].add(hash(case.tag) & 0xffffffffffff)
+        for t in case.dyn.get('tags', ()):
+            r['tags'].add(hash(t) & 0xffffffffffff)
+        for k, v in case.dyn.get('info', {}).items():
+            r.setdefault('info', {})[k] = v
         if not case.trivial: r['nontrivial'] += 1
         for c in case.cmds:
             if c.startswith('c '):
